@@ -267,10 +267,22 @@ const (
 	fUpdate
 	fDelete
 	fCreate
+	fTake
+	fLast
+	fPluck
+	fScan
+	fFirstOrInit
+	fSave
+	fRows      // SQLite only (DryRun does not support Rows)
 	fHandle    // the chain is not finished but turned into a reusable handle with Session(&Session{})
 	fCountFind // real only: Count and then Find on the same chain object (pagination idiom)
 	fModelFind // internal: the Find half of fCountFind replayed alone
 )
+
+type scanRow struct {
+	Name string
+	Age  int
+}
 
 var finishers = []finisher{
 	fFind: {Label: "Find(&[]User{})", Dry: true, Real: true, Run: func(db *gorm.DB, hm bool, obs func(*gorm.DB)) *gorm.DB {
@@ -303,6 +315,55 @@ var finishers = []finisher{
 		tx := db.Create(&User{Name: "c", Age: 1})
 		obs(tx)
 		return tx
+	}},
+	fTake: {Label: "Take(&User{})", Dry: true, Real: true, Run: func(db *gorm.DB, hm bool, obs func(*gorm.DB)) *gorm.DB {
+		tx := db.Take(&User{})
+		obs(tx)
+		return tx
+	}},
+	fLast: {Label: "Last(&User{})", Dry: true, Real: true, Run: func(db *gorm.DB, hm bool, obs func(*gorm.DB)) *gorm.DB {
+		tx := db.Last(&User{})
+		obs(tx)
+		return tx
+	}},
+	fPluck: {Label: `Pluck("name",&[]string{})`, Dry: true, Real: true, Run: func(db *gorm.DB, hm bool, obs func(*gorm.DB)) *gorm.DB {
+		var names []string
+		tx := withModel(db, hm).Pluck("name", &names)
+		obs(tx)
+		return tx
+	}},
+	fScan: {Label: "Scan(&[]struct{Name,Age})", Dry: true, Real: true, Run: func(db *gorm.DB, hm bool, obs func(*gorm.DB)) *gorm.DB {
+		var rows []scanRow
+		tx := withModel(db, hm).Scan(&rows)
+		obs(tx)
+		return tx
+	}},
+	fFirstOrInit: {Label: "FirstOrInit(&User{})", Dry: true, Real: true, Run: func(db *gorm.DB, hm bool, obs func(*gorm.DB)) *gorm.DB {
+		tx := db.FirstOrInit(&User{})
+		obs(tx)
+		return tx
+	}},
+	fSave: {Label: `Save(&User{ID:2,Name:"s"})`, Dry: true, Run: func(db *gorm.DB, hm bool, obs func(*gorm.DB)) *gorm.DB {
+		if hm {
+			// Save with a primary key writes the saved values back into the Model value (documented
+			// behaviour of updates); the Model value of the spec is an object of the caller shared by
+			// every chain of the handle, so the write-back is given a private one
+			db = db.Model(&User{})
+		}
+		tx := db.Save(&User{ID: 2, Name: "s"})
+		obs(tx)
+		return tx
+	}},
+	fRows: {Label: "Rows()", Real: true, Run: func(db *gorm.DB, hm bool, obs func(*gorm.DB)) *gorm.DB {
+		c := withModel(db, hm)
+		rows, err := c.Rows()
+		if rows != nil {
+			rows.Close()
+		}
+		// Rows does not hand out its *DB: report the error through a detached one
+		tx := &gorm.DB{Config: db.Config, Error: err, Statement: &gorm.Statement{}}
+		obs(tx)
+		return nil
 	}},
 	fHandle: {Label: "Session(&Session{}) [becomes a handle]", Dry: true, Real: true},
 	fCountFind: {Label: "Count(&n) then Find(&[]User{}) on the same chain", Real: true, Run: func(db *gorm.DB, hm bool, obs func(*gorm.DB)) *gorm.DB {
@@ -340,6 +401,10 @@ func init() {
 		finByLabel[f.Label] = i
 	}
 }
+
+// every finisher of the alphabet, for direct execution on a live reusable handle
+var dryHandleFins = []int{fFind, fFirst, fCount, fUpdate, fDelete, fCreate, fTake, fLast, fPluck, fScan, fFirstOrInit, fSave}
+var realHandleFins = []int{fFind, fFirst, fCount, fTake, fLast, fPluck, fScan, fFirstOrInit, fRows}
 
 // probe finishers executed directly on reusable handles
 var dryProbes = []int{fFind, fUpdate, fCreate}
